@@ -79,7 +79,8 @@ def _line(case):
         n1 = np.cross(wh, [1.0, 0, 0]) if abs(wh[0]) < 0.9 else np.cross(wh, [0, 1.0, 0])
     n1 = refs.unit(n1)
     n2 = np.cross(wh, n1)
-    pl1, pl2 = np.r_[n1, -np.dot(n1, p)], np.r_[n2, -np.dot(n2, p)]
+    # the same two planes with arbitrarily scaled coefficient vectors (non-unit normals, scaled offsets)
+    pl1, pl2 = np.r_[n1, -np.dot(n1, p)] * case["k"], np.r_[n2, -np.dot(n2, p)] * (0.5 + abs(case["tilt"]) * 3.0)
     ok, l3 = c.lib("Planes", L.Plucker.Planes, list(pl1), list(pl2))
     if ok:
         lines["Planes"] = l3
